@@ -19,9 +19,9 @@ const alg_t ALGS[] = {
         { "aes-ecb-128", AK_CIPHER, F_AES, IMB_CIPHER_ECB, IMB_AUTH_NULL, 16, 0, 0, 16, 65520, 16, IVS(0), TAGS(0), 0, 0, 0, LM_NONE, 0, 0 },
         { "aes-ecb-192", AK_CIPHER, F_AES, IMB_CIPHER_ECB, IMB_AUTH_NULL, 24, 0, 0, 16, 65520, 16, IVS(0), TAGS(0), 0, 0, 0, LM_NONE, 0, 0 },
         { "aes-ecb-256", AK_CIPHER, F_AES, IMB_CIPHER_ECB, IMB_AUTH_NULL, 32, 0, 0, 16, 65520, 16, IVS(0), TAGS(0), 0, 0, 0, LM_NONE, 0, 0 },
-        { "aes-cfb-128", AK_CIPHER, F_AES, IMB_CIPHER_CFB, IMB_AUTH_NULL, 16, 0, 0, 0, 1u << 20, 16, IVS(16), TAGS(0), 0, 0, 0, LM_CFB128, 1, 0 },
-        { "aes-cfb-192", AK_CIPHER, F_AES, IMB_CIPHER_CFB, IMB_AUTH_NULL, 24, 0, 0, 0, 1u << 20, 16, IVS(16), TAGS(0), 0, 0, 0, LM_CFB192, 1, 0 },
-        { "aes-cfb-256", AK_CIPHER, F_AES, IMB_CIPHER_CFB, IMB_AUTH_NULL, 32, 0, 0, 0, 1u << 20, 16, IVS(16), TAGS(0), 0, 0, 0, LM_CFB256, 1, 0 },
+        { "aes-cfb-128", AK_CIPHER, F_AES, IMB_CIPHER_CFB, IMB_AUTH_NULL, 16, 0, 0, 0, 65520, 16, IVS(16), TAGS(0), 0, 0, 0, LM_CFB128, 1, 0 },
+        { "aes-cfb-192", AK_CIPHER, F_AES, IMB_CIPHER_CFB, IMB_AUTH_NULL, 24, 0, 0, 0, 65520, 16, IVS(16), TAGS(0), 0, 0, 0, LM_CFB192, 1, 0 },
+        { "aes-cfb-256", AK_CIPHER, F_AES, IMB_CIPHER_CFB, IMB_AUTH_NULL, 32, 0, 0, 0, 65520, 16, IVS(16), TAGS(0), 0, 0, 0, LM_CFB256, 1, 0 },
         { "aes-ctr-bit-128", AK_CIPHER, F_AES, IMB_CIPHER_CNTR_BITLEN, IMB_AUTH_NULL, 16, 0, 1, 1, 8u << 20, 1, IVS(16), TAGS(0), 0, 0, 0, LM_NONE, 0, 0 },
         { "aes-ctr-bit-192", AK_CIPHER, F_AES, IMB_CIPHER_CNTR_BITLEN, IMB_AUTH_NULL, 24, 0, 1, 1, 8u << 20, 1, IVS(16), TAGS(0), 0, 0, 0, LM_NONE, 0, 0 },
         { "aes-ctr-bit-256", AK_CIPHER, F_AES, IMB_CIPHER_CNTR_BITLEN, IMB_AUTH_NULL, 32, 0, 1, 1, 8u << 20, 1, IVS(16), TAGS(0), 0, 0, 0, LM_NONE, 0, 0 },
